@@ -15,6 +15,7 @@ import (
 	_ "embed"
 	"encoding/json"
 	"fmt"
+	"go/types"
 	"os"
 	"sort"
 	"strings"
@@ -52,6 +53,11 @@ func (e *Engine) describeAnchor(f *ssa.Function) anchorDesc {
 	}
 	// parameter and result types only (names may change)
 	var ps, rs []string
+	if r := f.Signature.Recv(); r != nil {
+		// the receiver counts as the first parameter: a method turned into a
+		// plain function taking the former receiver (or the reverse) keeps it
+		ps = append(ps, short(r.Type().String()))
+	}
 	for i := 0; i < f.Signature.Params().Len(); i++ {
 		ps = append(ps, short(f.Signature.Params().At(i).Type().String()))
 	}
@@ -116,8 +122,11 @@ func (e *Engine) renamedAnchor(name string) *ssa.Function {
 			continue // still present under an anchored name of its own
 		}
 		d := e.describeAnchor(f)
-		if d.Pkg != want.Pkg || d.Recv != want.Recv || d.Sig != want.Sig {
+		if d.Pkg != want.Pkg || d.Sig != want.Sig {
 			continue
+		}
+		if d.Recv != want.Recv && d.Recv != "" && want.Recv != "" {
+			continue // both are methods, of different types
 		}
 		j := jaccard(d.Callees, want.Callees)
 		if j > best {
@@ -145,4 +154,54 @@ func (e *Engine) dumpAnchors(names []string) {
 	}
 	b, _ := json.MarshalIndent(out, "", " ")
 	_, _ = os.Stdout.Write(b)
+}
+
+// ---------------------------------------------------------------------------
+// fields
+
+type fieldDesc struct {
+	Index int    `json:"index"`
+	Type  string `json:"type"`
+}
+
+//go:embed anchor_fields.json
+var anchorFieldsJSON []byte
+
+var anchorFieldTable map[string]fieldDesc
+
+func loadFieldAnchors() {
+	if anchorFieldTable != nil {
+		return
+	}
+	anchorFieldTable = map[string]fieldDesc{}
+	_ = json.Unmarshal(anchorFieldsJSON, &anchorFieldTable)
+}
+
+// renamedField: pkg.typ.field no longer exists; if the struct still has, at
+// the recorded position, a field of the recorded type whose name is not an
+// anchored field name of that struct, that field is the renamed one.
+func (e *Engine) renamedField(pkg, typ, field string) *types.Var {
+	loadFieldAnchors()
+	key := pkg + "." + typ + "." + field
+	want, ok := anchorFieldTable[key]
+	if !ok {
+		return nil
+	}
+	n := e.Named(pkg, typ)
+	if n == nil {
+		return nil
+	}
+	st, ok := n.Underlying().(*types.Struct)
+	if !ok || want.Index >= st.NumFields() {
+		return nil
+	}
+	f := st.Field(want.Index)
+	if short(f.Type().String()) != want.Type {
+		return nil
+	}
+	if _, anchored := anchorFieldTable[pkg+"."+typ+"."+f.Name()]; anchored {
+		return nil
+	}
+	e.RenameNotes = append(e.RenameNotes, fmt.Sprintf("anchored field %s no longer resolves; %s (same struct position and type) is used in its place", key, f.Name()))
+	return f
 }
